@@ -89,6 +89,12 @@ class Future:
     def cancel(self):
         self._state = FutureState.CANCELLED
 
+    def exception(self) -> Optional[BaseException]:
+        """Returns the exception set by set_exception() (if any) without raising it."""
+        if self._state != FutureState.FINISHED:
+            raise FutureStateError(f'Attempted to get exception from a {self._state} future.')
+        return self._ex
+
     def result(self) -> Any:
         if self._state != FutureState.FINISHED:
             raise FutureStateError(f'Attempted to get result from a {self._state} future.')
@@ -383,11 +389,14 @@ class ProcessRunner(Runner, ABC):
             task = self.future_to_task.pop(future)
             if future.cancelled:
                 continue
-            try:
-                task_result = future.result()
-            except BaseException as ex:
+            # Do not catch exceptions around future.result(): a
+            # KeyboardInterrupt raised in this thread must not be
+            # mistaken for the outcome of the task.
+            ex = future.exception()
+            if ex is not None:
                 yield (task, ex)
             else:
+                task_result = future.result()
                 self.results_map[task] = task_result
                 yield (task, task_result.meta)
 
